@@ -41,17 +41,20 @@ type ackEvent struct {
 
 type concRun struct {
 	*walRun
-	mu      sync.Mutex
-	capSeq  int            // capture clock
-	durSeq  map[string]int // capture time of durable[name]
-	acks    []ackEvent
-	failed  []string // acknowledgements with an error (no promise)
-	armed   bool
-	arrived chan struct{}
-	release chan struct{}
-	flushes int
-	used    int  // bytes of the current segment in use (to predict a rollover: size field+crcs 12 + marshalled entry)
-	blind   bool // a segment may have been flushed before the hook was on it: no verdicts for this scenario
+	mu         sync.Mutex
+	capSeq     int            // capture clock
+	durSeq     map[string]int // capture time of durable[name]
+	acks       []ackEvent
+	failed     []string // acknowledgements with an error (no promise)
+	armed      bool
+	arrived    chan struct{}
+	release    chan struct{}
+	flushes    int
+	used       int  // bytes of the current segment in use (to predict a rollover: size field+crcs 12 + marshalled entry)
+	blind      bool // a segment may have been flushed before the hook was on it: no verdicts for this scenario
+	lastRec    int  // size of the last record appended
+	inPark     bool // a flush is parked right now
+	rollInPark int  // rollovers that happened while a flush was parked
 }
 
 func (c *concRun) dir() string { return walDir(c.root) }
@@ -192,6 +195,10 @@ func (c *concRun) appendOne(r *hx.Rng, size int, andSync bool, done *sync.WaitGr
 		}
 		c.script = append(c.script, "(rollover)")
 	}
+	c.lastRec = rec
+	if rolled && c.inPark {
+		c.rollInPark++
+	}
 	if rolled {
 		c.used = rec
 		if andSync {
@@ -245,10 +252,17 @@ func waitWG(wg *sync.WaitGroup, d time.Duration) bool {
 
 func concurrentScenario(o *hx.Out, r *hx.Rng, id int) {
 	seg := int32(hx.Pick(r, []int{2 * pageSize, 3 * pageSize, 16 * 1024, 64 * 1024}))
+	size := hx.Pick(r, []int{40, 300, 1000, 1500})
+	// aimed: fill the segment so that the parked flush's own entry is the last one that fits: the first
+	// request issued while the flush is parked rolls the segment over (and closes the one being flushed)
+	aimed := r.Chance(60)
+	if aimed {
+		seg = int32(hx.Pick(r, []int{2 * pageSize, 3 * pageSize}))
+		size = hx.Pick(r, []int{300, 1000, 1500})
+	}
 	c := &concRun{walRun: newWalRun(r, seg), durSeq: map[string]int{}}
 	defer os.RemoveAll(c.root)
 	c.instrument()
-	size := hx.Pick(r, []int{40, 300, 1000, 1500})
 	var wg sync.WaitGroup
 	ok := true
 	// a few sequential, fully acknowledged writes first
@@ -261,6 +275,23 @@ func concurrentScenario(o *hx.Out, r *hx.Rng, id int) {
 	}
 	rounds := 1 + r.Intn(3)
 	for rd := 0; rd < rounds && ok && !hung; rd++ {
+		if aimed {
+			rec := c.lastRec
+			if rec == 0 {
+				rec = size + 40
+			}
+			for ok && c.used+2*rec <= int(seg) {
+				ok = c.appendOne(r, size, true, &wg)
+				if ok && !waitWG(&wg, 20*time.Second) {
+					hung = true
+					return
+				}
+				rec = c.lastRec
+			}
+			if !ok {
+				break
+			}
+		}
 		// park the next flush right after its image was taken
 		c.mu.Lock()
 		c.armed, c.arrived, c.release = true, make(chan struct{}), make(chan struct{})
@@ -277,6 +308,9 @@ func concurrentScenario(o *hx.Out, r *hx.Rng, id int) {
 		select {
 		case <-arrived:
 			parked = true
+			c.mu.Lock()
+			c.inPark = true
+			c.mu.Unlock()
 			c.script = append(c.script, "[flush parked")
 		case <-time.After(3 * time.Second):
 			c.mu.Lock()
@@ -300,6 +334,9 @@ func concurrentScenario(o *hx.Out, r *hx.Rng, id int) {
 		}
 		if parked {
 			c.script = append(c.script, "released]")
+			c.mu.Lock()
+			c.inPark = false
+			c.mu.Unlock()
 			close(release)
 		}
 		if !waitWG(&wg, 30*time.Second) {
@@ -313,15 +350,18 @@ func concurrentScenario(o *hx.Out, r *hx.Rng, id int) {
 	c.mu.Lock()
 	acks, failed := c.acks, c.failed
 	c.mu.Unlock()
+	if c.rollInPark > 0 {
+		o.Count("wal:concurrent-scenarios-with-rollover-during-the-parked-flush")
+	}
 	if len(failed) > 0 {
-		o.Count("wal:concurrent:sync-reported-an-error(no-promise)")
-		for _, f := range failed {
-			msg := f[strings.Index(f, ":")+1:]
-			if len(msg) > 50 {
-				msg = msg[:50]
-			}
-			o.Count("wal:concurrent:sync-error:" + msg)
+		// no fault was injected and every entry is durable (appended, the segment flushed by its
+		// Close or by the next round): a sync request must not fail
+		sig := "wal:sync-error"
+		if c.rollInPark > 0 {
+			sig = "wal:sync-error-at-rollover"
 		}
+		o.Violation(sig, fmt.Sprintf("%s | %d of the sync requests returned an error although nothing failed: %s",
+			strings.Join(c.script, " "), len(failed), strings.Join(failed, "; ")))
 	}
 	if c.blind {
 		o.Count("wal:concurrent:unpredicted-rollover(no-verdict)")
